@@ -195,7 +195,7 @@ func (sc *collection) doBuild(ctx context.Context) (Provider, error) {
 			continue
 		}
 
-		if err := g.AddProviderDeferred(descriptor); err != nil {
+		if err := g.AddProviderDeferred(sc.graphProvider(descriptor)); err != nil {
 			return nil, &BuildError{
 				Phase:   "graph",
 				Details: fmt.Sprintf("failed to add provider %v", formatType(descriptor.Type)),
@@ -312,6 +312,47 @@ func (sc *collection) doBuild(ctx context.Context) (Provider, error) {
 	}
 
 	return p, nil
+}
+
+// groupExpandedProvider presents a descriptor to the dependency graph with
+// every group dependency replaced by one dependency per member of that group:
+// the members are graph nodes of their own (type, position, group), so this is
+// what makes cycle detection and creation order see through value groups.
+type groupExpandedProvider struct {
+	*Descriptor
+	dependencies []*reflection.Dependency
+}
+
+func (p groupExpandedProvider) GetDependencies() []*reflection.Dependency {
+	return p.dependencies
+}
+
+// graphProvider returns the graph view of a descriptor (see groupExpandedProvider).
+func (sc *collection) graphProvider(descriptor *Descriptor) graph.Provider {
+	hasGroupDependency := false
+	for _, dep := range descriptor.Dependencies {
+		if dep != nil && dep.Group != "" {
+			hasGroupDependency = true
+			break
+		}
+	}
+	if !hasGroupDependency {
+		return descriptor
+	}
+
+	dependencies := make([]*reflection.Dependency, 0, len(descriptor.Dependencies))
+	for _, dep := range descriptor.Dependencies {
+		if dep == nil || dep.Group == "" {
+			dependencies = append(dependencies, dep)
+			continue
+		}
+		for _, member := range sc.groups[GroupKey{Type: dep.Type, Group: dep.Group}] {
+			memberDep := *dep
+			memberDep.Key = member.Key
+			dependencies = append(dependencies, &memberDep)
+		}
+	}
+	return groupExpandedProvider{Descriptor: descriptor, dependencies: dependencies}
 }
 
 // AddModules applies one or more module configurations to the service collection.
@@ -782,6 +823,21 @@ func (c *collection) validateLifetimes() error {
 		// Both Singleton and Transient cannot depend on Scoped
 		for _, dep := range descriptor.Dependencies {
 			if dep == nil {
+				continue
+			}
+
+			// A group dependency stands for every member of the group
+			if dep.Group != "" {
+				for _, member := range c.groups[GroupKey{Type: dep.Type, Group: dep.Group}] {
+					if member != nil && member.Lifetime == Scoped {
+						return &LifetimeConflictError{
+							ServiceType:        descriptor.Type,
+							ServiceLifetime:    descriptor.Lifetime,
+							DependencyType:     dep.Type,
+							DependencyLifetime: Scoped,
+						}
+					}
+				}
 				continue
 			}
 
